@@ -32,7 +32,7 @@ def attribute(tag, run, sibling_clean):
         return ['C02']
     if tag.startswith('c06.'):
         return ['C06']
-    if tag == 'err.content':
+    if tag == 'err.content' or tag.startswith('c07.'):
         return ['C07']
     if tag.startswith('SPEC.'):
         return ['SPEC']
